@@ -355,6 +355,17 @@ def run_impl(case):
                 obs['checks'] = check_restored(case['obj'], loaded, None, sets, 'obj')
             except BaseException as e:  # noqa
                 obs['load'] = 'err:' + type(e).__name__
+            # ONE caller-supplied context (without loader) used for two loads in a row: the second state carries no recorded
+            # loader and must be resolved through the global default, whatever the first load resolved
+            if lctx is None and not obs['load'].startswith('err:'):
+                try:
+                    shared = plumpy.LoadSaveContext()
+                    plumpy.Savable.load(copy.deepcopy(state), shared)
+                    second = build(('o', 0, [(m, ('p', 0)) for m in (sets[0] or [])]), None, benv).save()
+                    again = plumpy.Savable.load(second, shared)
+                    obs['reuse'] = 'ok' if type(again).__name__ == 'K0' else 'wrong:' + type(again).__name__
+                except BaseException as e:  # noqa
+                    obs['reuse'] = 'err:' + type(e).__name__
             top = state.get('!!meta', {}).get('class_name')
             for kind, ident in cc.LOG:
                 if top is not None and ident == top:
@@ -552,6 +563,9 @@ def monitors(case, obs):
             if obs['via'] != exp[1]:
                 fail('wrong-loader-used', 'class resolved through context loader > recorded loader > global default',
                      dict(expected=exp[1], asked=obs['via']))
+            if obs.get('reuse') not in (None, 'ok'):
+                fail('context-reuse-wrong-loader', 'each saved state is resolved through the loader recorded in IT (else the global '
+                     'default), also when one load context is used for several loads', dict(second_load=obs['reuse']))
     else:
         if not obs['load'].startswith('err:'):
             fail('unknown-class-returned-object', 'an unknown class is a ValueError rather than a wrong object',
